@@ -7,6 +7,7 @@ import (
 	"cmp"
 	"fmt"
 	"reflect"
+	"time"
 
 	"github.com/emirpasic/gods/v2/containers"
 	"github.com/emirpasic/gods/v2/lists/arraylist"
@@ -330,6 +331,8 @@ func anyCmp(x, y any) int {
 		return cmp.Compare(a, y.(uint64))
 	case SK:
 		return cmp.Compare(a, y.(SK))
+	case time.Time:
+		return a.Compare(y.(time.Time))
 	case HX:
 		b := y.(HX)
 		if a.P != b.P {
